@@ -47,7 +47,7 @@ fn combine<const KF: usize>() {
     kani::cover!(true, "end reached");
 }
 
-// @ob id=rotated_page known="rot: i32, k: i32" tier=quick timeout=300 bound="source /Rotate any i32, requested angle any of the four; Page model = {rotation} with the library's own Page::set_rotation; from_parsed_with_content modelled as the verbatim rotation copy it performs (page.rs)"
+// @ob id=rotated_page known="rot: i32, k: i32" mem=24 tier=quick timeout=300 bound="source /Rotate any i32, requested angle any of the four; Page model = {rotation} with the library's own Page::set_rotation; from_parsed_with_content modelled as the verbatim rotation copy it performs (page.rs)"
 fn rotated_page<const KF: usize>() {
     let rot: i32 = kani::any();
     let angle = any_angle();
